@@ -7,7 +7,7 @@
    pool-wide low-priority queue served as in local_priority_queue_scheduler); the runtime_state constants and the "refusal returns" facts are
    regenerated from the source (Gen/GenRuntimeState.v). *)
 From Coq Require Import List NArith Bool Arith Permutation Lia.
-From Pika Require Import Base.Conc Gen.GenRuntimeState Model.SuspendResume Proofs.SuspendResumeProofs Proofs.SuspendResumeValidated Proofs.SuspendResumeStutter.
+From Pika Require Import Base.Conc Gen.GenRuntimeState Model.SuspendResume Proofs.SuspendResumeProofs Proofs.SuspendResumeValidated Proofs.SuspendResumeStutter Proofs.SuspendResumeBlocked.
 Import ListNotations.
 
 (* a task is executed at most once, whatever suspend/resume calls are interleaved with its life *)
@@ -241,3 +241,32 @@ Theorem C19_disabled_only_stutters : forall c o t g l, fst o = false -> enabled 
   geq g (fst (sr_tstep c o t g l)) /\ enabled c t (fst (sr_tstep c o t g l)) (snd (sr_tstep c o t g l)) = false.
 Proof. exact disabled_stutter. Qed.
 Print Assumptions C19_disabled_only_stutters.
+
+(* ---- blocked tasks (session h10b).  [with_blocked g k] = g with k more tasks that are alive (counted by
+   get_thread_count(), the model's [live]) but in no queue and held by no worker: tasks that started and are suspended
+   on a latch / future / condition variable.  Every worker step except the execution of a task commutes with their
+   presence (the worker never reads [live]) ... *)
+Theorem C19_worker_ignores_blocked_tasks : forall c o w g k pc, no_exec pc = true ->
+  worker_step c o w (with_blocked g k) pc =
+  (with_blocked (fst (worker_step c o w g pc)) k, snd (worker_step c o w g pc)).
+Proof. exact worker_step_blocked. Qed.
+Print Assumptions C19_worker_ignores_blocked_tasks.
+
+(* ... and a worker that was told to sleep (pre_sleep) and whose get_queue_length queues are empty has stored `sleeping`
+   and waits on its condition variable after seven steps of its own, however many blocked tasks exist: the suspended
+   count gates EXIT, not sleep, so suspend_processing_unit does not wait for blocked tasks.  (Contrast: the pool suspend,
+   PWaitIdle, waits for live = 0.) *)
+Theorem C19_sleep_ignores_blocked_tasks : forall c w g k os,
+  st g w = g_sleep_if -> qlen_tasks c w g = [] -> length os = 7 ->
+  let r := wrun c os w (with_blocked g k) WTop in
+  snd r = WWaiting /\ st (fst r) w = g_sleep_store /\ waiting (fst r) w = true /\ live (fst r) = k + live g.
+Proof. exact sleep_ignores_blocked_tasks. Qed.
+Print Assumptions C19_sleep_ignores_blocked_tasks.
+
+(* non-vacuity: 2 workers, worker 1 in pre_sleep with empty queues and 3 blocked tasks *)
+Example C19_sleep_ignores_blocked_tasks_example :
+  let c := {| nw := 2; elastic := true; stealing := true |} in
+  let g := set_st sr_g0 (upd (st sr_g0) 1 g_sleep_if) in
+  let r := wrun c (repeat (false, 0) 7) 1 (with_blocked g 3) WTop in
+  snd r = WWaiting /\ st (fst r) 1 = g_sleep_store /\ live (fst r) = 3 /\ st (fst r) 0 = rs_running.
+Proof. vm_compute. repeat split. Qed.
